@@ -31,9 +31,14 @@ func (u *URL) formatSSH() string {
 		result = fmt.Sprintf("%s@%s", u.User, result)
 	}
 
-	// Add port if present.
+	// Add port if present. A zero-valued (i.e. unspecified) port is normally
+	// omitted, but if the path begins with a (potentially empty) digit sequence
+	// followed by a colon, then that sequence would be mistaken for a port when
+	// parsing the result, so in that case we specify the zero port explicitly.
 	if u.Port != 0 {
 		result = fmt.Sprintf("%s:%d", result, u.Port)
+	} else if pathResemblesPortSpecification(u.Path) {
+		result = fmt.Sprintf("%s:0", result)
 	}
 
 	// Add path.
@@ -41,6 +46,19 @@ func (u *URL) formatSSH() string {
 
 	// Done.
 	return result
+}
+
+// pathResemblesPortSpecification returns whether or not a path begins with a
+// (potentially empty) sequence of digits followed by a colon, i.e. something
+// that an SCP-style URL parser would interpret as a port specification.
+func pathResemblesPortSpecification(path string) bool {
+	for _, r := range path {
+		if '0' <= r && r <= '9' {
+			continue
+		}
+		return r == ':'
+	}
+	return false
 }
 
 // invalidDockerURLFormat is the value returned by formatDocker when a URL is
